@@ -25,7 +25,7 @@ EXTENDS JWTText, JWS, Json, IOUtils, CSV
 Trace == ndJsonDeserialize(IOEnv.VERIF_TRACE)
 
 \* key material catalogue of the run: one record, field names "HS/m1", "EC/P256/m1", "RSA/m1", ...
-KeyCat == ndJsonDeserialize(IOEnv.VERIF_KEYS)[1]
+KeyCat == IF "VERIF_KEYS" \in DOMAIN IOEnv THEN ndJsonDeserialize(IOEnv.VERIF_KEYS)[1] ELSE [none |-> ""]
 MatName(alg, mat) == CASE JWSFamily(alg) = "HS"  -> "HS/" \o mat
                        [] JWSFamily(alg) = "EC"  -> "EC/" \o JWSCurve(alg) \o "/" \o mat
                        [] JWSFamily(alg) = "RSA" -> "RSA/" \o mat
@@ -143,8 +143,19 @@ JudgeNewValidator(e) ==
   ELSE IF e.err = ~ValidatorOptsOK(e.o) THEN <<>>
   ELSE <<"EXPECTATION: NewValidator refuses exactly the exclusive options and skew > 10 min", ToString(ValidatorOptsOK(e.o))>>
 
+\* ------------------------------------------------------------------ jws: known answers (bin/selfspec, Wycheproof)
+\* A JWS library accepts tok for the key (alg, km) iff it is a compact serialization whose header is an
+\* object naming exactly the key's algorithm and whose signature verifies.  hdrObj / hdrAlg: the header
+\* as parsed by the vector converter.
+JudgeJWS(e) ==
+  LET p == JWSParse(HexToBytes(e.tok))
+      km == [k |-> HexToBytes(e.km.k), pk |-> HexToBytes(e.km.pk), n |-> HexToBytes(e.km.n), e |-> HexToBytes(e.km.e)]
+      v == p.ok /\ e.hdrObj /\ IsStr(e.hdrAlg, e.alg) /\ JWSValid(e.alg, km, p.input, p.sig)
+  IN IF v = e.ok THEN <<>> ELSE <<"known answer differs from the JWS reference", ToString(v)>>
+
 Judge(e) ==
   CASE e.ev = "verify" -> JudgeVerify(e)
+    [] e.ev = "jws" -> JudgeJWS(e)
     [] e.ev = "sign" -> JudgeSign(e)
     [] e.ev = "jwk" -> JudgeJWK(e)
     [] e.ev = "newvalidator" -> JudgeNewValidator(e)
